@@ -174,3 +174,43 @@ def run_sibling(desc, *, solve=True, simulate=False, targets=None, n_agents=3, c
         if counters is not None:
             counters["sibling_models_failed"] = counters.get("sibling_models_failed", 0) + 1
         return False
+
+
+def run_alias_sibling(model, counters=None):
+    """Process-history workload for state keyed by FUNCTION OBJECTS: a sibling model that
+    contains the judged model's own function objects a second time under other names
+    (listed first, as unused auxiliary functions) is processed right before the judged
+    model. Nothing of it is judged; failures are ignored."""
+    try:
+        import lcm
+
+        funcs = dict(model.functions)
+        alias = {}
+        for k, v in funcs.items():
+            if hasattr(v, "_stochastic_info") or getattr(v, "__dict__", {}).get("_stochastic_info") is not None:
+                continue
+            alias[f"zz_{k}_alias"] = v
+        sib = lcm.Model(n_periods=model.n_periods, functions={**alias, **funcs}, states=dict(model.states), choices=dict(model.choices))
+        get_lcm_function(sib, "solve")
+        if counters is not None:
+            counters["alias_siblings_processed_before"] = counters.get("alias_siblings_processed_before", 0) + 1
+        return True
+    except Exception:  # noqa: BLE001
+        if counters is not None:
+            counters["alias_siblings_failed"] = counters.get("alias_siblings_failed", 0) + 1
+        return False
+
+
+def update_params_in_place(dst, src):
+    """Overwrite the leaves of the params mapping `dst` with those of `src` WITHOUT replacing
+    any nested dict object (a user edits params["utility"]["dis"] = 1.0 and calls again)."""
+    for k, v in src.items():
+        if isinstance(v, dict) and isinstance(dst.get(k), dict):
+            for kk in list(dst[k]):
+                if kk not in v:
+                    del dst[k][kk]
+            for kk, vv in v.items():
+                dst[k][kk] = vv
+        else:
+            dst[k] = v
+    return dst
